@@ -243,6 +243,7 @@ class Emitter:
                 if ins.op == 'landingpad': lp_of[bl] = ins
                 if ins.res is not None: defs[ins.res] = ins
         self.cur_defs = defs
+        self.cur_blocks = F.blocks
 
         def edge(frm, to):
             cs = []
@@ -562,13 +563,16 @@ class Emitter:
             # typed allocation: operator new followed by a bitcast of the result
             if bare in ('_Znwm', '__cxa_allocate_exception') and ins.res is not None:
                 tt = None
-                for j in block_insts:
+                # the typed view of the fresh object: first bitcast of the result anywhere in the function
+                # (an `invoke` of operator new has its bitcast in the normal-destination block)
+                for j in [x for b in self.cur_blocks.values() for x in b]:
                     if j.op == 'cast' and j.kind == 'bitcast' and isinstance(j.val, Local) and j.val.n == ins.res:
                         ft = self.rs(j.tty)
                         if isinstance(ft, PtrTy) and not isinstance(ft.to, (FnTy, OtherTy)):
                             if not (isinstance(ft.to, NamedTy) and M.types.get(ft.to.name) is None):
-                                tt = ft.to
-                        break
+                                if not (isinstance(self.rs(ft.to), IntTy)):
+                                    tt = ft.to
+                                    break
                 sz = ins.args[0][1]
                 if tt is not None and isinstance(sz, CInt) and M.sizeof(tt) >= sz.v and M.sizeof(tt) - sz.v < 16:
                     ct = self.cty(tt)
@@ -658,7 +662,7 @@ class Emitter:
         for gn, (ty, init, const) in M.globals.items():
             if init is not None:
                 scan_val(init)
-                if gn.startswith('@_ZTV') and isinstance(init, CAgg):
+                if gn[1:].strip('"').startswith('_ZTV') and isinstance(init, CAgg):
                     for (at, arr) in init.elems:
                         if isinstance(arr, CAgg):
                             for j, (et, ev) in enumerate(arr.elems):
